@@ -14,6 +14,13 @@ use std::panic::{catch_unwind, AssertUnwindSafe};
 use std::sync::Mutex;
 
 static LAST_PANIC: Mutex<Option<String>> = Mutex::new(None);
+/// Set while a monitor makes calls that are *allowed* to refuse by panicking (wrong-length vector
+/// stores): the side file is not rewritten for those, which would cost a file write per call.
+static EXPECTED_PANICS: std::sync::atomic::AtomicBool = std::sync::atomic::AtomicBool::new(false);
+
+pub fn expect_panics(on: bool) {
+    EXPECTED_PANICS.store(on, std::sync::atomic::Ordering::Relaxed);
+}
 static PANIC_FILE: std::sync::OnceLock<String> = std::sync::OnceLock::new();
 
 pub fn install_panic_hook() {
@@ -32,7 +39,9 @@ pub fn install_panic_hook() {
         // a panic that cannot unwind aborts the process: keep the text of the last panic in a
         // side file, which the driver reads when a worker dies
         if let Some(p) = PANIC_FILE.get() {
-            let _ = std::fs::write(p, format!("{} @ {}\n", msg, loc));
+            if !EXPECTED_PANICS.load(std::sync::atomic::Ordering::Relaxed) {
+                let _ = std::fs::write(p, format!("{} @ {}\n", msg, loc));
+            }
         }
         if let Ok(mut g) = LAST_PANIC.lock() {
             *g = Some(format!("{} @ {}", msg, loc));
